@@ -111,6 +111,14 @@ pub fn binary_of(hist: &[Json]) -> Vec<u8> {
 }
 
 fn observe(m: &Module, funcs: &[Option<FunctionId>]) -> Json {
+    // a panic while looking at the module (an id that resolves to nothing) is an observation too
+    match catch_unwind(AssertUnwindSafe(|| observe_inner(m, funcs))) {
+        Ok(j) => j,
+        Err(p) => json!({"skip": false, "types": [format!("<panic:{}>", run::short(&run::panic_msg(p)))], "functy": []}),
+    }
+}
+
+fn observe_inner(m: &Module, funcs: &[Option<FunctionId>]) -> Json {
     let mut tys: Vec<String> = m.types.iter().map(|t| sig_str(t.params(), t.results())).collect();
     tys.sort();
     let functy: Vec<String> = funcs
@@ -127,6 +135,13 @@ fn observe(m: &Module, funcs: &[Option<FunctionId>]) -> Json {
 }
 
 pub fn replay(id: &str, hist: &[Json]) -> Json {
+    match catch_unwind(AssertUnwindSafe(|| replay_inner(id, hist))) {
+        Ok(j) => j,
+        Err(p) => json!({"id": id, "source": format!("types:{}", id), "outcome": format!("panic:{}", run::short(&run::panic_msg(p))), "in_valid": true, "events": []}),
+    }
+}
+
+fn replay_inner(id: &str, hist: &[Json]) -> Json {
     let bytes = binary_of(hist);
     let in_valid = absmod::validate(&bytes).is_ok();
     let cfg = run::Cfg { probe: false, ..Default::default() };
